@@ -51,6 +51,22 @@ Proof. induction n as [|c n IH]; intros v; cbn; [reflexivity|]. rewrite N.eqb_re
 Lemma firstn_app_exact {A} (u v : list A) : firstn (length u) (u ++ v) = u.
 Proof. induction u as [|x u IH]; cbn; [reflexivity|]. rewrite IH. reflexivity. Qed.
 
+Lemma parse_pairs_unfold start inp : parse_pairs start inp = parse_with G (default_fuel inp) start inp.
+Proof. reflexivity. Qed.
+
+(** every pair of the tree the model's parser returns is replayable (PegProps.parse_replay) *)
+Lemma parse_pairs_replay inp start ps p :
+  parse_pairs start inp = Ok ps -> in_forest p ps -> replayable G inp p.
+Proof. intros Hparse Hin. rewrite parse_pairs_unfold in Hparse. exact (parse_replay _ _ _ _ Hparse Hin). Qed.
+
+Lemma name_pair_run inp s e kids :
+  replayable G inp (Pair R_Name s e kids) ->
+  exists f, run G f false AAtomic (r_exp (g_rule G R_Name)) (skipn (N.to_nat s) inp) s
+            = Ok (skipn (N.to_nat e) inp, e, kids).
+Proof.
+  intros Hrep. cbn [replayable] in Hrep. destruct Hrep as [f [a [Hrun _]]]. exists f. exact Hrun.
+Qed.
+
 (** ** every Name pair of the tree, on every input *)
 Theorem name_pairs_true : forall inp start ps file s e kids,
   parse_pairs start inp = Ok ps ->
@@ -62,11 +78,7 @@ Theorem name_pairs_true : forall inp start ps file s e kids,
    ipos (to_ident inp file p) = mkPos (fst (spec_line_col inp s)) (snd (spec_line_col inp s)) file false).
 Proof.
   intros inp start ps file s e kids Hparse Hin p.
-  unfold parse_pairs, parse in Hparse.
-  pose proof (parse_replay _ _ _ _ Hparse Hin) as Hrep. cbn [replayable] in Hrep.
-  destruct Hrep as [f [a [Hrun [Hse Hlen]]]].
-  change (body_sk G R_Name) with false in Hrun.
-  change (body_atomicity G R_Name a) with AAtomic in Hrun.
+  destruct (name_pair_run _ _ _ _ (parse_pairs_replay _ _ _ _ Hparse Hin)) as [f Hrun].
   destruct (name_body_spec f (skipn (N.to_nat s) inp) s) as [E|E]; rewrite E in Hrun; [discriminate|].
   destruct (skipn (N.to_nat s) inp) as [|c rest] eqn:Esk; [discriminate|].
   destruct (is_name_start c) eqn:Hc; [|discriminate].
@@ -84,3 +96,78 @@ Proof.
     destruct v as [|d v']; [reflexivity|]. rewrite Hvhd. reflexivity.
   - intros Hcr. cbn [to_ident ipos]. apply to_pos_true. exact Hcr.
 Qed.
+
+(** ** keywords: every rule of the shape  @{ "word" ~ !NameContinue }  *)
+Definition keyword_of (r : rule) : option str :=
+  match rule_def r with
+  | mkRule MAtomic (Seq (Lit l) (NotP (Call R_NameContinue))) => Some l
+  | _ => None
+  end.
+
+Lemma keyword_of_shape r l : keyword_of r = Some l ->
+  rule_def r = mkRule MAtomic (Seq (Lit l) (NotP (Call R_NameContinue))).
+Proof.
+  unfold keyword_of. destruct (rule_def r) as [m e]. destruct m; try discriminate.
+  destruct e as [| | | | | | |x y| | | | | |]; try discriminate.
+  destruct x; try discriminate. destruct y as [| | | | | | | | | | | |z|]; try discriminate.
+  destruct z; try discriminate. destruct r0; try discriminate. intros H; inversion H; reflexivity.
+Qed.
+
+Lemma strip_prefix_spec : forall l inp rest, strip_prefix l inp = Some rest -> inp = l ++ rest.
+Proof.
+  induction l as [|c l IH]; intros inp rest H; cbn in H; [inversion H; reflexivity|].
+  destruct inp as [|d inp]; [discriminate|]. destruct (N.eqb_spec c d) as [->|]; [|discriminate].
+  cbn. f_equal. apply IH; exact H.
+Qed.
+
+Theorem keyword_pairs_true : forall inp start ps file r l s e kids,
+  parse_pairs start inp = Ok ps ->
+  in_forest (Pair r s e kids) ps ->
+  keyword_of r = Some l ->
+  let p := Pair r s e kids in
+  kids = [] /\
+  kw_name (to_keyword inp file p) = l /\
+  (is_name l = true -> name_at (skipn (N.to_nat s) inp) l = true) /\
+  (no_lone_cr inp = true ->
+   kw_pos (to_keyword inp file p) = mkPos (fst (spec_line_col inp s)) (snd (spec_line_col inp s)) file false).
+Proof.
+  intros inp start ps file r l s e kids Hparse Hin Hkw p.
+  pose proof (parse_pairs_replay _ _ _ _ Hparse Hin) as Hrep. cbn [replayable] in Hrep.
+  destruct Hrep as [f [a [Hrun [Hse Hlen]]]].
+  pose proof (keyword_of_shape _ _ Hkw) as Hdef.
+  assert (Hsk : body_sk G r = false).
+  { unfold body_sk, static_atomic. change (g_rule G r) with (rule_def r). rewrite Hdef. reflexivity. }
+  assert (Hat : body_atomicity G r a = AAtomic).
+  { unfold body_atomicity. change (g_rule G r) with (rule_def r). rewrite Hdef. reflexivity. }
+  rewrite Hsk, Hat in Hrun. change (g_rule G r) with (rule_def r) in Hrun. rewrite Hdef in Hrun. cbn [r_exp] in Hrun.
+  destruct (seq_lit_not_class l class_NameContinue f (skipn (N.to_nat s) inp) s) as [E|E]; rewrite E in Hrun; [discriminate|].
+  destruct (strip_prefix l (skipn (N.to_nat s) inp)) as [rest|] eqn:Esp; [|discriminate].
+  pose proof (strip_prefix_spec _ _ _ Esp) as Hsk'.
+  assert (Hres : Ok (rest, s + slen l, @nil pr) = Ok (skipn (N.to_nat e) inp, e, kids) /\
+                 match rest with d :: _ => is_name_cont d = false | [] => True end).
+  { destruct rest as [|d r']; [split; [exact Hrun|exact I]|].
+    destruct (is_name_cont d) eqn:Hd; [discriminate|]. split; [exact Hrun|reflexivity]. }
+  destruct Hres as [Hres Hnext]. inversion Hres as [[Hrest He Hk]]. clear Hres Hrun.
+  split; [reflexivity|].
+  assert (Hstr : as_str inp p = l).
+  { unfold as_str, substr, p. cbn [pair_start pair_end]. rewrite Hsk', <- He. unfold slen.
+    replace (N.to_nat (s + N.of_nat (length l) - s)) with (length l) by lia. apply firstn_app_exact. }
+  split; [exact Hstr|]. split.
+  - intros Hn. unfold name_at. rewrite Hn, Hsk', prefix_rest_app. cbn [andb].
+    destruct rest as [|d r']; [reflexivity|]. rewrite Hnext. reflexivity.
+  - intros Hcr. cbn [to_keyword kw_pos]. apply to_pos_true. exact Hcr.
+Qed.
+
+(** non-vacuity: the 21 keyword rules of the grammar all have that shape, with these words *)
+Definition keyword_rules : list rule :=
+  [R_KEYWORD_query; R_KEYWORD_mutation; R_KEYWORD_subscription; R_KEYWORD_fragment; R_KEYWORD_on;
+   R_KEYWORD_true; R_KEYWORD_false; R_KEYWORD_null; R_KEYWORD_extend; R_KEYWORD_schema; R_KEYWORD_scalar;
+   R_KEYWORD_type; R_KEYWORD_implements; R_KEYWORD_interface; R_KEYWORD_union; R_KEYWORD_enum; R_KEYWORD_input;
+   R_KEYWORD_directive; R_KEYWORD_repeatable; R_ext_KEYWORD_import; R_ext_KEYWORD_from].
+Example keyword_rules_covered :
+  map keyword_of keyword_rules =
+  map (fun w => Some w)
+    [s "query"; s "mutation"; s "subscription"; s "fragment"; s "on"; s "true"; s "false"; s "null"; s "extend";
+     s "schema"; s "scalar"; s "type"; s "implements"; s "interface"; s "union"; s "enum"; s "input"; s "directive";
+     s "repeatable"; s "import"; s "from"].
+Proof. vm_compute. reflexivity. Qed.
